@@ -24,6 +24,12 @@ def run_property(pid, repo, tier, seed, only_key=None):
         ctx = report.Ctx(pid, P, tier=tier, seed=seed, only_key=only_key)
         try:
             explanation = mod.check(ctx)
+            if tier == 'thorough' and not only_key:
+                from . import thorough
+                thorough.extra(ctx)
+                explanation += (' THOROUGH tier: additionally the sweeps of sa/thorough.py (index-kind typing over all call sites, NumPy name resolution over '
+                                'the anchor files, effect analysis over every boolean-option combination, wider bounded integer checks, and the '
+                                "property's own self-test variants as checker validation).")
         except AnalysisError as e:
             ctx.undecided.append('%s: %s' % (pid, e))
             explanation = getattr(mod, 'EXPLANATION', 'analysis incomplete')
